@@ -126,7 +126,7 @@ theorem log_near_one (a : decomposed192) (ha : a.sig.toNat ≠ 0)
     (hX0 : 99 / 100 ≤ ((D192.val a : ℚ) : ℝ)) (hX1 : ((D192.val a : ℚ) : ℝ) < 1) :
     ∃ (x : decomposed192) (t : Int8),
       Gen.decomposed192.log a = .ok (true, x, t) ∧ (t = 0 ∨ t = 1 ∨ t = -1) ∧
-      -5500 ≤ x.exp.toInt ∧ x.exp.toInt ≤ 5500 ∧
+      -5930 ≤ x.exp.toInt ∧ x.exp.toInt ≤ 5500 ∧
       |((D192.val x : ℚ) : ℝ) - (|Real.log ((D192.val a : ℚ) : ℝ)|)| ≤ 69 / 10 ^ 58 :=
   LogAcc.log_near_one a ha he hX0 hX1
 
